@@ -225,6 +225,11 @@ func (fv *FnV) oblige(st *State, kind, what, goal string, n ast.Node, clause *Cl
 			return
 		}
 	}
+	if kind == "safe.index" || kind == "safe.nil" || kind == "safe.slice" || kind == "safe.div" {
+		// execution only continues past the operation if it did not panic: whether or not the obligation is
+		// generated (nosafety) or discharged, the code after it may rely on the condition
+		defer st.assume(goal)
+	}
 	if fv.fc != nil && fv.fc.NoSafety && strings.HasPrefix(kind, "safe.") {
 		return
 	}
@@ -410,10 +415,24 @@ func (fv *FnV) execBlock(st *State, list []ast.Stmt) *State {
 }
 
 func (fv *FnV) exec(st *State, s ast.Stmt) *State {
+	var pre *State
+	if acs, ok := fv.assertAt[s]; ok && len(fv.frames) == 1 {
+		for _, ac := range acs {
+			if strings.HasPrefix(ac.Var, "call:") {
+				// a local Hoare triple around a call: old(e) in the clause is the value just before the statement
+				pre = st.clone()
+			}
+		}
+	}
 	st = fv.exec1(st, s)
 	if acs, ok := fv.assertAt[s]; ok && !st.dead && len(fv.frames) == 1 {
 		for _, ac := range acs {
-			g := fv.evalClauseAt(st, ac.Cl, s.End())
+			var g string
+			if strings.HasPrefix(ac.Var, "call:") && pre != nil {
+				g = fv.evalClauseAtPre(st, ac.Cl, s.End(), pre)
+			} else {
+				g = fv.evalClauseAt(st, ac.Cl, s.End())
+			}
 			lab := ac.Cl.Label
 			if lab == "" {
 				lab = ac.Var
